@@ -639,6 +639,8 @@ class C15(common.Prop):
                  3: "a 'chiral' label is missing, extra or sits on another atom than the one it was written on",
                  4: 'the cis/trans class of a substituent pair differs from the other variants of the same molecule',
                  5: 'a cis/trans relation is missing or an unexpected one is stored',
+                 14: 'the cis/trans class of a substituent pair differs from the other variants (inside the class '
+                     'second_anchor_ligand_lower: a ligand of the second-enumerated anchor has the smaller key)',
                  9: 'the resolver raised an exception on a valid stereo input'}
 
     def corpus(self, ctx):
@@ -763,7 +765,8 @@ class C15(common.Prop):
         return tag
 
     def known_class(self, case, impl, code):
-        if code == 4 and case.get('judged', True) and 'before' in impl and in_class_py(impl['before']):
+        # the Coq predicate EzDefs.in_class decides (code 14); the Python mirror must agree
+        if code == 14 and case.get('judged', True) and 'before' in impl and in_class_py(impl['before']):
             return 'second_anchor_ligand_lower'
         return None
 
@@ -823,7 +826,7 @@ def py_oracle(case, impl):
             got[key] = (c == 'cis')
     for k, c in got.items():
         if k in want and want[k] != c:
-            return 4
+            return 14 if ('before' in impl and in_class_py(impl['before'])) else 4
     if set(got) != set(want):
         return 5
     return 0
